@@ -28,6 +28,27 @@ dyn     every (system, bath, construction path, RWA reference, time step) x EVER
                                    populations; must not increase with depth and must be
                                    <= TOL at Dmax (Q, calibrated, admissible points
                                    kappa <= KAPPA_MAX only, see TOL_* below)
+        Hamiltonian class (construction path "direct"): {real, complex Hermitian}.  The
+        resonance couplings carry a phase exp(+-i phi) along the oriented bonds 0->1->..
+        ->n-1->0 ("jphase", degrees); on a ring of three sites the total flux 3 phi is
+        not removable by a change of the site phases.  Clauses with a reference:
+        closed-system/* (expm of the complex H), trace/*, hermiticity/*.
+
+hist    REQUEST HISTORIES on ONE open-system object through the builder accessors:
+        every ordered pair and triple of depths of the depth alphabet x every accessor
+        word over {h: get_KTHierarchy(d), p: get_KTHierarchyPropagator(d)} x system
+        (Molecule, Aggregate with 1..K baths).  Every returned object is checked
+        against the REQUESTED depth with the index-set / links / gamma oracles of
+        section index; on the propagation sub-product every returned object also
+        propagates EVERY member of the spanning set of initial states and the result is
+        compared (R) with a hierarchy of the requested depth constructed directly
+        (KTHierarchy(ham, sbi, d) on an independently built Hamiltonian + system-bath
+        interaction), plus trace/Hermiticity.  After the last request the objects
+        returned earlier are checked once more (a later request must not change them).
+          history/index-set/*, history/links/*, history/gamma/*
+          history/propagation/*       differs from the directly constructed hierarchy
+          history/trace/*, history/hermiticity/*
+          history/earlier-object-changed/*
 """
 import numpy
 
@@ -74,6 +95,50 @@ def _bath_list(bath, nsites):
     return [dict(bath) for _ in range(nsites)]
 
 
+def complex_h_cm(energies, J, e0, jphase_deg):
+    """Hermitian matrix (1/cm) with ground state e0 and couplings J[i][j] exp(+i phi) along
+    the oriented bonds i -> i+1 (mod n), exp(-i phi) against them, real for the others."""
+    n = len(energies)
+    phi = numpy.pi * float(jphase_deg) / 180.0
+    h = numpy.zeros((n + 1, n + 1), dtype=complex)
+    h[0, 0] = e0
+    for i in range(n):
+        h[i + 1, i + 1] = energies[i]
+        for j in range(n):
+            if i == j or J[i][j] == 0:
+                continue
+            if (j - i) % n == 1:
+                ph = numpy.exp(1j * phi)
+            elif (i - j) % n == 1:
+                ph = numpy.exp(-1j * phi)
+            else:
+                ph = 1.0
+            h[i + 1, j + 1] = float(J[i][j]) * ph
+    if n == 2:
+        # both orientations coincide for two sites: 0 -> 1 carries +phi
+        h[1, 2] = float(J[0][1]) * numpy.exp(1j * phi)
+        h[2, 1] = numpy.conj(h[1, 2])
+    return h
+
+
+def _complex_hamiltonian(energies, J, e0, jphase_deg):
+    qr = isolation.qr()
+    h = complex_h_cm(energies, J, e0, jphase_deg)
+    if float(numpy.max(numpy.abs(h - h.conj().T))) != 0.0 or \
+            float(numpy.max(numpy.abs(h.imag))) == 0.0:
+        raise isolation.HarnessError("complex Hamiltonian spec is not complex Hermitian")
+    with qr.energy_units("1/cm"):
+        ham = qr.Hamiltonian(data=h)
+    isolation.reset_units()
+    got = numpy.array(ham.data)
+    want = h * LS.to_int(1.0)
+    if got.shape != want.shape or not numpy.iscomplexobj(got) or \
+            float(numpy.max(numpy.abs(got - want))) > 1e-12 * float(numpy.max(numpy.abs(want))):
+        raise isolation.HarnessError("Hamiltonian(data=complex Hermitian) does not hold the "
+                                     "matrix it was given; the complex class cannot be set up")
+    return ham
+
+
 def _build(case, depth):
     """Fresh time axis, system, hierarchy and propagator -> (propagator, ham, ta)."""
     qr = isolation.qr()
@@ -95,6 +160,8 @@ def _build(case, depth):
     else:
         ham, sbi = systems.ham_sbi(en, J, baths, ta, e0=float(case.get("e0", 0.0)))
         isolation.reset_units()
+        if case.get("jphase"):
+            ham = _complex_hamiltonian(en, J, float(case.get("e0", 0.0)), case["jphase"])
         if case.get("rwa", "blocks") == "per-site":
             ham.set_rwa(list(range(n + 1)))
         else:
@@ -214,6 +281,8 @@ def eval_dyn(case):
     label, rho0 = spanning_states(N)[case["state"]]
     depths = list(case["depths"])
     sysname = "%dsite/%s" % (n, "coupled" if coupled else "uncoupled")
+    if case.get("jphase"):
+        sysname += "/complexH"
     viol, seen = [], set()
 
     def add(key, what, det=None):
@@ -351,13 +420,203 @@ def eval_dyn(case):
             "label": label, "lam": lams, "sys": sysname, "dmax": depths[-1]}
     outcome = [sysname, case["energies"], lams, case["via"], case.get("rwa", "blocks"),
                case["dt"], label, _r(moved, 4), digest]
+    if case.get("jphase"):
+        outcome.append(case["jphase"])
     return {"nontrivial": nontrivial, "outcome": outcome, "violations": viol,
             "n": len(depths) - 1, "info": info}
+
+
+# ----------------------------------------------------------------------------
+# section hist: request histories on one open system
+# ----------------------------------------------------------------------------
+HIST_BATH = {"ftype": HT, "reorg": 60.0, "cortime": 50.0, "T": 300.0}
+HIST_NT, HIST_DT = 6, 6.0
+_REF_CACHE = {}
+
+
+def _hist_baths(K):
+    return [dict(HIST_BATH, reorg=HIST_BATH["reorg"] - 10.0 * k,
+                 cortime=HIST_BATH["cortime"] + 15.0 * k) for k in range(K)]
+
+
+def _hist_spec(system, K):
+    """The open system of a history case: K two-level sites, each with its own bath."""
+    en = [E0 + 150.0 * k - 40.0 * k * k for k in range(K)]
+    J = systems.full_J(K, [100.0, -60.0, 40.0]) if K > 1 else None
+    return {"system": system, "K": K, "energies": en, "J": J, "bath": _hist_baths(K),
+            "nt": HIST_NT, "dt": HIST_DT}
+
+
+def _hist_open_system(case):
+    """Fresh Molecule / built Aggregate with environments -> (open system, time axis)."""
+    qr = isolation.qr()
+    ta = systems.time_axis(int(case["nt"]), float(case["dt"]))
+    en = [float(e) for e in case["energies"]]
+    baths = _bath_list(case["bath"], len(en))
+    if case["system"] == "molecule":
+        with qr.energy_units("1/cm"):
+            osys = qr.Molecule(elenergies=[0.0, en[0]])
+        osys.set_transition_environment((0, 1), systems.corfce(ta, baths[0]))
+    else:
+        osys = systems.aggregate(en, J=case.get("J"), bath=baths, ta=ta)
+    isolation.reset_units()
+    return osys, ta
+
+
+def _hist_reference(case, depth):
+    """Propagation of every spanning state by a hierarchy of `depth` CONSTRUCTED DIRECTLY
+    from an independently built Hamiltonian and system-bath interaction (no open-system
+    object involved).  Deterministic; memoised per worker process."""
+    key = repr((case["energies"], case.get("J"), case["bath"], case["nt"], case["dt"], depth))
+    if key not in _REF_CACHE:
+        qr = isolation.qr()
+        from quantarhei import KTHierarchy, KTHierarchyPropagator
+        en = [float(e) for e in case["energies"]]
+        n = len(en)
+        J = case.get("J") or [[0.0] * n for _ in range(n)]
+        ta = systems.time_axis(int(case["nt"]), float(case["dt"]))
+        ham, sbi = systems.ham_sbi(en, J, _bath_list(case["bath"], n), ta)
+        isolation.reset_units()
+        ham.set_rwa([0, 1])
+        out = []
+        for _, rho0 in spanning_states(n + 1):
+            hy = KTHierarchy(ham, sbi, depth)
+            pr = KTHierarchyPropagator(ta, hy)
+            out.append(numpy.array(pr.propagate(qr.ReducedDensityMatrix(data=rho0.copy())).data))
+        _REF_CACHE[key] = numpy.array(out)
+    return _REF_CACHE[key]
+
+
+def _index_defects(hy, K, depth, gam):
+    """[(oracle/defect, detail)] of one hierarchy object against the requested depth."""
+    out = []
+    hinds = numpy.array(hy.hinds)
+    if hy.nbath != K:
+        return [("index-set/nbath", "hierarchy has %s baths, system has %d" % (hy.nbath, K))]
+    for name, det in HI.check_index_set(hinds, hy.levels, hy.levlengths, hy.hsize, K, depth):
+        out.append(("index-set/%s" % name, det))
+    if hinds.ndim == 2 and hinds.shape[1] == K:
+        for name, det in HI.check_links(hinds, hy.nm1, hy.np1, depth):
+            out.append(("links/%s" % name, det))
+        ref = HI.decay_factors(hinds, gam)
+        got = numpy.asarray(hy.Gamma, dtype=float)
+        scale = max(1e-3, float(numpy.max(numpy.abs(ref)))) if ref.size else 1.0
+        if got.shape != ref.shape or not numpy.all(numpy.isfinite(got)) or \
+                float(numpy.max(numpy.abs(got - ref))) > RTOL * scale:
+            out.append(("gamma", "Gamma differs from sum_k n_k/tau_k"))
+    return out
+
+
+def _propagate_all(pr, N):
+    qr = isolation.qr()
+    return [numpy.array(pr.propagate(qr.ReducedDensityMatrix(data=rho0.copy())).data)
+            for _, rho0 in spanning_states(N)]
+
+
+def eval_hist(case):
+    qr = isolation.qr()
+    from quantarhei import KTHierarchyPropagator
+    K = int(case["K"])
+    N = K + 1
+    hist = [int(d) for d in case["history"]]
+    word = case["word"]
+    prop = bool(case.get("prop"))
+    tag = "%s/K=%d" % (case["system"], K)
+    gam = [1.0 / float(b["cortime"]) for b in _bath_list(case["bath"], K)]
+    labels = [l for l, _ in spanning_states(N)]
+    viol, seen = [], set()
+
+    def add(key, what, det=None):
+        if key not in seen:
+            seen.add(key)
+            viol.append((key, what, det))
+
+    def compare(data, depth, step, how, keyprefix):
+        """Propagation oracles of one returned object (all spanning states)."""
+        ref = _hist_reference(case, depth)
+        worst = 0.0
+        for si, d in enumerate(data):
+            where = "request #%d %s(%d) of history %s/%s, state %s" % (
+                step, "get_KTHierarchyPropagator" if how == "p" else "get_KTHierarchy",
+                depth, hist, word, labels[si])
+            if d.shape != ref[si].shape or not numpy.all(numpy.isfinite(d)):
+                add("%s/shape-or-finite/%s" % (keyprefix, tag), where + ": shape %s / "
+                    "non-finite values" % (d.shape,), {"step": step})
+                continue
+            sc = max(1.0, float(numpy.max(numpy.abs(ref[si]))))
+            e = float(numpy.max(numpy.abs(d - ref[si])))
+            worst = max(worst, e)
+            if e > RTOL * sc:
+                add("%s/propagation/%s" % (keyprefix, tag),
+                    where + ": differs by %.3g from the hierarchy of depth %d constructed "
+                    "directly" % (e, depth), {"step": step, "depth": depth, "state": labels[si]})
+            tr = numpy.trace(d, axis1=1, axis2=2)
+            if float(numpy.max(numpy.abs(tr - 1.0))) > RTOL * sc:
+                add("%s/trace/%s" % (keyprefix, tag), where + ": |Tr rho - 1| = %.3g"
+                    % float(numpy.max(numpy.abs(tr - 1.0))), {"step": step})
+            he = float(numpy.max(numpy.abs(d - numpy.conj(numpy.transpose(d, (0, 2, 1))))))
+            if he > RTOL * sc:
+                add("%s/hermiticity/%s" % (keyprefix, tag), where + ": max |rho - rho^+| = %.3g"
+                    % he, {"step": step})
+        return worst
+
+    osys, ta = _hist_open_system(case)
+    returned = []                       # (depth, how, hierarchy, propagator, clean at return)
+    sizes = []
+    worst = 0.0
+    for step, (depth, how) in enumerate(zip(hist, word)):
+        if how == "p":
+            pr = osys.get_KTHierarchyPropagator(depth)
+            hy = pr.hy
+        else:
+            hy = osys.get_KTHierarchy(depth)
+            pr = None
+        isolation.reset_units()
+        defects = _index_defects(hy, K, depth, gam)
+        for name, det in defects:
+            add("history/%s/%s" % (name, tag),
+                "request #%d %s(%d) of history %s/%s on one %s: %s"
+                % (step, "get_KTHierarchyPropagator" if how == "p" else "get_KTHierarchy",
+                   depth, hist, word, case["system"], det), {"step": step, "depth": depth})
+        sizes.append(int(hy.hsize))
+        clean = not defects
+        if prop:
+            if pr is None:
+                # what a user does with a returned hierarchy
+                pr = KTHierarchyPropagator(hy.sbi.TimeAxis, hy)
+            worst = max(worst, compare(_propagate_all(pr, N), depth, step, how, "history"))
+        returned.append((depth, how, hy, pr, clean))
+    # ---- objects handed out earlier must still be what was requested -------------
+    for step, (depth, how, hy, pr, clean) in enumerate(returned[:-1]):
+        if not clean:
+            continue
+        for name, det in _index_defects(hy, K, depth, gam):
+            add("history/earlier-object-changed/%s/%s" % (name, tag),
+                "object returned by request #%d (depth %d) of history %s/%s is no longer a "
+                "hierarchy of that depth after the later requests: %s"
+                % (step, depth, hist, word, det), {"step": step, "depth": depth})
+    if prop and len(returned) > 1 and returned[0][4]:
+        depth, how, hy, pr, _ = returned[0]
+        worst = max(worst, compare(_propagate_all(pr, N), depth, 0, how,
+                                   "history/earlier-object-changed"))
+    distinguish = None
+    if prop and len(set(hist)) > 1:
+        refs = [_hist_reference(case, d) for d in sorted(set(hist))]
+        distinguish = min(float(numpy.max(numpy.abs(a - b)))
+                          for i, a in enumerate(refs) for b in refs[i + 1:])
+    nontrivial = len(set(hist)) > 1 and (not prop or distinguish > 1e-7)
+    outcome = [case["system"], K, hist, word, sizes, bool(prop)]
+    return {"nontrivial": bool(nontrivial), "outcome": outcome, "violations": viol,
+            "n": (len(hist) + 1) * N * N - 1 if prop else len(hist) - 1,
+            "info": {"sec": "hist", "prop": prop, "worst": worst, "distinguish": distinguish,
+                     "descending": any(a > b for a, b in zip(hist, hist[1:]))}}
 
 
 def eval_case(case):
     if case["sec"] == "index":
         return eval_index(case)
+    if case["sec"] == "hist":
+        return eval_hist(case)
     return eval_dyn(case)
 
 
@@ -397,12 +656,18 @@ def index_cases(tier):
 def dyn_cases(tier):
     out = []
 
-    def add(energies, J, bath, via, rwa, nt, dt, depths, e0=0.0):
+    def add(energies, J, bath, via, rwa, nt, dt, depths, e0=0.0, jphase=0):
         N = len(energies) + 1
         for s in range(N * N):
-            out.append({"sec": "dyn", "energies": energies, "J": J, "bath": bath,
-                        "via": via, "rwa": rwa, "nt": nt, "dt": dt, "state": s,
-                        "depths": depths, "e0": e0})
+            c = {"sec": "dyn", "energies": energies, "J": J, "bath": bath,
+                 "via": via, "rwa": rwa, "nt": nt, "dt": dt, "state": s,
+                 "depths": depths, "e0": e0}
+            if jphase:
+                c["jphase"] = jphase
+            out.append(c)
+
+    ring3 = systems.full_J(3, [100.0])
+    en3 = [E0, E0 + 200.0, E0 - 100.0]
 
     mixed2 = [_bath(30, 50), _bath(20, 40)]
     if tier == "quick":
@@ -424,6 +689,16 @@ def dyn_cases(tier):
         add([E0 + 300.0], None, _bath(30.0), "direct", "blocks", nt, dt, D, e0=300.0)
         add([E0 + 300.0, E0 + 500.0], _J(2, 0.0), _bath(30.0), "agg", "blocks", nt, dt, [0, 2, 4],
             e0=300.0)
+        # Hamiltonian class {real, complex Hermitian}: couplings J exp(+-i phi) (direct
+        # construction only: the aggregate builder takes real couplings); dimer (phase
+        # removable by a gauge choice, |J| is not) and ring of three sites (flux 3 phi,
+        # not removable); phi = 90 deg: purely imaginary couplings
+        for jph in (0, 30, 90):
+            for lam, dd in ((0.0, [0, 2]), (30.0, [0, 1, 2])):
+                add([E0, E0 + 200.0], _J(2, 100.0), _bath(lam), "direct", "blocks", 50, 2.0,
+                    dd, jphase=jph)
+            for lam, dd in ((0.0, [0, 2]), (30.0, [0, 2])):
+                add(en3, ring3, _bath(lam), "direct", "blocks", 50, 2.0, dd, jphase=jph)
         return out
     # ------------------------------ thorough ------------------------------------
     D = list(range(0, 7))
@@ -459,17 +734,72 @@ def dyn_cases(tier):
         for b in (_bath(0), _bath(30), mixed3):
             for via in ("agg", "direct"):
                 add(en, _J(3, J), b, via, "blocks", 200, 1.0, D)
+    # Hamiltonian class {real, complex Hermitian} (see the quick tier)
+    for jph in (0, 30, 90, 120):
+        for gap in (0.0, 200.0):
+            for b in (_bath(0), _bath(30), mixed2):
+                add([E0, E0 + gap], _J(2, 100.0), b, "direct", "blocks", 200, 1.0, D,
+                    jphase=jph)
+        for b in (_bath(0), _bath(30), mixed3):
+            add(en3, ring3, b, "direct", "blocks", 200, 1.0, list(range(0, 5)), jphase=jph)
+        # open chain: every phase is removable, the magnitudes are not
+        add(en3, _J(3, 100.0), _bath(0), "direct", "blocks", 200, 1.0, [0, 2], jphase=jph)
+        # ground state off zero
+        add([E0 + 300.0, E0 + 500.0], _J(2, 100.0), _bath(0), "direct", "blocks", 200, 1.0,
+            [0, 2], e0=300.0, jphase=jph)
+    return out
+
+
+# (system, K, largest depth of the alphabet) ; propagation sub-product: {history length:
+# largest depth} per system
+HIST_SPACE = {
+    "quick": ([("molecule", 1, 4), ("aggregate", 1, 4), ("aggregate", 2, 4),
+               ("aggregate", 3, 4)],
+              {("molecule", 1): {2: 3, 3: 2}, ("aggregate", 2): {2: 3, 3: 2}}),
+    "thorough": ([("molecule", 1, 5), ("aggregate", 1, 5), ("aggregate", 2, 5),
+                  ("aggregate", 3, 5), ("aggregate", 4, 4)],
+                 {("molecule", 1): {2: 5, 3: 4}, ("aggregate", 1): {2: 5, 3: 4},
+                  ("aggregate", 2): {2: 5, 3: 4}, ("aggregate", 3): {2: 4, 3: 3}})}
+
+
+def hist_cases(tier):
+    """(system) x (all ordered pairs and triples over the depth alphabet) x (all accessor
+    words); `prop`: the sub-product on which every returned object also propagates the
+    whole spanning set (depths of the propagation alphabet only)."""
+    import itertools
+    sys_alpha, prop_alpha = HIST_SPACE[tier]
+    out = []
+    for system, K, dmax in sys_alpha:
+        spec = _hist_spec(system, K)
+        pa = prop_alpha.get((system, K), {})
+        for length in (2, 3):
+            hs = sorted(itertools.product(range(dmax + 1), repeat=length),
+                        key=lambda h: (sum(h), h))
+            for hist in hs:
+                for word in itertools.product("hp", repeat=length):
+                    c = dict(spec)
+                    c.update({"sec": "hist", "history": list(hist), "word": "".join(word),
+                              "prop": bool(length in pa and max(hist) <= pa[length])})
+                    out.append(c)
     return out
 
 
 def cases(tier):
-    return index_cases(tier) + dyn_cases(tier)
+    return index_cases(tier) + hist_cases(tier) + dyn_cases(tier)
 
 
 # ----------------------------------------------------------------------------
 def run(run):
     run.rule = ("index: full product (bath type x construction path x K baths x depth), "
-                "non-trivial = K>=2 and depth>=2; dyn: full product (system x bath x path x "
+                "non-trivial = K>=2 and depth>=2; hist: full product (open system x every "
+                "ordered pair and triple of depths of the alphabet x every accessor word over "
+                "{get_KTHierarchy, get_KTHierarchyPropagator}) requested from ONE system "
+                "object, every returned object checked against the requested depth (index "
+                "oracles; on the propagation sub-product also all N^2 spanning states against "
+                "a directly constructed hierarchy), non-trivial = at least two different "
+                "depths in the history (and the direct references of these depths differ by "
+                "more than 1e-7 = 1000 x class R); dyn: full product (system x Hamiltonian class {real, complex "
+                "Hermitian} x bath x path x "
                 "RWA reference x time step) x every member of the N^2 spanning set of valid "
                 "initial states x every depth 0..Dmax (a fresh hierarchy+propagator per "
                 "propagation); non-trivial = initial state is a superposition, or an excited "
@@ -486,12 +816,32 @@ def run(run):
         "C(t) samples with lam(2kT - i/tau)exp(-t/tau) (1e-5 relative: unit constants)",
         "monotone convergence is demanded only above %.0e (rounding floor)" % MONO_FLOOR,
         "every propagation runs on a freshly built hierarchy (isolation from C15); units are "
-        "reset after Aggregate.build (isolation from C05)"]
+        "reset after Aggregate.build (isolation from C05)",
+        "hist: the reference of a request for depth d is KTHierarchy(ham, sbi, d) + "
+        "KTHierarchyPropagator on a Hamiltonian and system-bath interaction assembled by hand "
+        "from the case specification (no open-system object), same time axis and Taylor order; "
+        "agreement is demanded to class R",
+        "complex Hamiltonian class: only through direct construction (the aggregate builder "
+        "accepts real couplings); clauses with a reference are closed-system (expm of the "
+        "complex H), trace and Hermiticity; the harness verifies that the Hamiltonian object "
+        "holds the complex matrix it was given"]
     q = run.tier == "quick"
     run.bounds = {
         "index": {"baths": "1..4" if q else "1..5", "depth": "0..5" if q else "0..7 (K=5: 0..6)",
                   "paths": ["direct", "agg"], "ftypes": [HT] if q else [HT, OB]},
+        "hist": {"systems (kind, baths, depth alphabet 0..max)":
+                     [list(x) for x in HIST_SPACE[run.tier][0]],
+                 "history length": "2 and 3 (all ordered tuples, repeats included)",
+                 "accessor words": "all of {h,p}^length",
+                 "propagation sub-product {history length: alphabet 0..max}":
+                     {"%s K=%d" % k: {str(l): m for l, m in v.items()}
+                      for k, v in HIST_SPACE[run.tier][1].items()},
+                 "time": "%d x %g fs" % (HIST_NT, HIST_DT)},
         "dyn": {"depths": "0..5" if q else "0..6",
+                "hamiltonian class": "real; complex Hermitian couplings J exp(i phi), phi in "
+                                     + ("{30, 90} deg" if q else "{30, 90, 120} deg") +
+                                     ": dimer, ring of three (flux 3 phi)" +
+                                     ("" if q else ", open chain of three"),
                 "systems": "monomer; dimers gap {0,200} x J {0,100}" +
                            ("" if q else "; trimers gaps (0,200,-100) x J {0,100}"),
                 "baths(reorg,cortime,T)": "0; (30,50,300); mixed per-site" if q else
@@ -505,6 +855,19 @@ def run(run):
     ic = index_cases(run.tier)
     dc = dyn_cases(run.tier)
     run_grid(run, ic, eval_case, section="index")
+    hc = hist_cases(run.tier)
+    # propagating cases first (heaviest) for load balance; the evaluated SET is the product
+    horder = sorted(range(len(hc)), key=lambda i: (not hc[i]["prop"], -hc[i]["K"]))
+    hinfos = run_grid(run, [hc[i] for i in horder], eval_case, section="hist")
+    hp = [i for i in hinfos if i.get("prop")]
+    run.note(history={"cases": len(hinfos), "with_descent": sum(1 for i in hinfos
+                                                                 if i["descending"]),
+                      "propagating_cases": len(hp),
+                      "worst_deviation_from_direct_construction":
+                          max([i["worst"] for i in hp] or [0.0]),
+                      "smallest_difference_between_references_of_two_depths":
+                          min([i["distinguish"] for i in hp if i["distinguish"] is not None]
+                              or [None], key=lambda x: (x is None, x))})
     # heaviest cases (most sites) first inside the pool for load balance; the evaluated
     # SET is the complete product either way
     dc = rotate(dc, run.seed)
